@@ -68,7 +68,7 @@ class C15(Scenario):
             "Distinct: hash of (tree shape, number of mutants).")
     assumptions = ["hgsim/grammar.py is the definition of 'valid serialisation' (hand-written from the specification; it is "
                    "self-tested against every document the library emits)", "booleans are never used to replace a number; "
-                   "a version such as '2.0' that the library's own rule accepts is not called incompatible",
+                   "a document version is incompatible when its (major, minor) is newer than the implementation's specification version 1.1",
                    "any exception type counts as a rejection"]
     expected_faults = ["doc_struct_corrupt", "torn_write"]
     expected_probes = ["mutant_in_nested_child", "list_element_mutant", "type_rename_mutant"]
